@@ -48,6 +48,7 @@ struct Cfg
   std::string daily = "00:00";
   char zone = 'G';
   int clean = 1;
+  int bw = 0;      // install an identity FileEventNotifier::before_write callback (user callbacks must not change rotation)
 };
 
 static std::string jesc(std::string const& s)
@@ -151,8 +152,10 @@ int main(int argc, char** argv)
   {
     try
     {
+      quill::FileEventNotifier fen;
+      if (cfg.bw) fen.before_write = [](std::string_view m) { return std::string{m}; };
       sink = std::make_unique<RotatingFileSink>(
-        fs::path{"logfile.log"}, make_cfg(cfg, mode), quill::FileEventNotifier{},
+        fs::path{"logfile.log"}, make_cfg(cfg, mode), fen,
         std::chrono::system_clock::time_point{std::chrono::seconds{start}});
     }
     catch (std::exception const& e) { sink.reset(); return e.what(); }
@@ -200,6 +203,7 @@ int main(int argc, char** argv)
         else if (!(v = kv(t, "daily")).empty()) cfg.daily = v;
         else if (!(v = kv(t, "zone")).empty()) cfg.zone = v[0];
         else if (!(v = kv(t, "clean")).empty()) cfg.clean = std::stoi(v);
+        else if (!(v = kv(t, "bw")).empty()) cfg.bw = std::stoi(v);
       }
     }
     else if (w == "pre")
